@@ -1,15 +1,28 @@
 // C15: non-intercepted packets are relayed byte-identical and in order.
 //
 // Live in-process proxy; a fake client joined to a fake backend. Both sides then send, at
-// the same time, streams of payloads whose packet id is unknown to Gate in the play state
-// for that protocol and direction (so the proxy must pass them through), with PRNG-chosen
-// sizes around every boundary (1, 2, 127/128, 255/256, each side's compression threshold
-// +-1, 32767, 2^20, the largest frame) and contents (random / highly compressible). Client
-// and backend compression thresholds are chosen independently. Each payload carries a
-// sequence number where there is room.
+// the same time, streams of packets the proxy must pass through:
 //
-// Oracle: per direction, the list of payloads with those ids received on the other side
-// equals the list sent, byte for byte, in order (no loss, duplication, change, reorder).
+//   - payloads whose packet id is unknown to Gate in the play state for that protocol and
+//     direction, with PRNG-chosen sizes around every boundary (1, 2, 127/128, 255/256, each
+//     side's compression threshold +-1, 32767, 2^20, the largest frame) and contents (random /
+//     highly compressible), and
+//   - interleaved with them, packets of the KNOWN types the play session handlers only
+//     observe (or do not look at) and relay from the bytes they received - tab list, boss
+//     bar, keep-alive, bundle delimiter, plugin messages on foreign channels, client settings,
+//     ... - hand-built with ordinary and unusual-but-legal contents (known_test.go lists the
+//     types and why each counts as not intercepted).
+//
+// Client and backend compression thresholds are chosen independently. Each packet carries a
+// sequence number where its format has room. Four sessions run at a time; every sixth is a
+// "heavy" one (both legs compressing, 48-400 KiB hardly compressible payloads both ways,
+// peers draining their sockets in small reads) so that several compressing writers of the
+// proxy are busy at once.
+//
+// Oracle: per direction, the list of packets with those ids received on the other side in
+// the play state equals the list sent, byte for byte, in order (no loss, duplication,
+// change, reorder). The signature names the difference and, for a known type, the type of
+// the first packet affected.
 package c15
 
 import (
